@@ -53,11 +53,26 @@ type zvwOpen struct {
 	Caps    []zvwCap
 	// RawParams, if set, replaces the optional parameters
 	RawParams []byte
+	// Pack: "" = all capabilities in one Capabilities optional parameter; "split" = one parameter per capability
+	// (RFC 5492 allows both); "split-rev" = one per capability, in reverse order
+	Pack string
 }
 
 func (o zvwOpen) bytes() []byte {
 	body := []byte{o.Version, byte(o.AS >> 8), byte(o.AS), byte(o.Hold >> 8), byte(o.Hold), byte(o.ID >> 24), byte(o.ID >> 16), byte(o.ID >> 8), byte(o.ID)}
 	params := o.RawParams
+	if params == nil && len(o.Caps) > 0 && o.Pack != "" {
+		cs := append([]zvwCap{}, o.Caps...)
+		if o.Pack == "split-rev" {
+			for i, j := 0, len(cs)-1; i < j; i, j = i+1, j-1 {
+				cs[i], cs[j] = cs[j], cs[i]
+			}
+		}
+		for _, c := range cs {
+			params = append(params, 2, byte(2+len(c.Val)), c.Code, byte(len(c.Val)))
+			params = append(params, c.Val...)
+		}
+	}
 	if params == nil && len(o.Caps) > 0 {
 		var caps []byte
 		for _, c := range o.Caps {
